@@ -575,8 +575,11 @@ def wire_problems(sc, mt, wire):
                     m = re.compile(rb'([1-9]\d*)=').match(payload, pos[0])
                     if not m or int(m.group(1)) != first:
                         break
+                    before = pos[0]
                     section(g, 'group %d' % tag, depth + 1)
                     n += 1
+                    if pos[0] == before:
+                        break
                 if n != int(val):
                     probs.append('group %d announces %s elements, %d elements starting with field %d follow' % (tag, val.decode(), n, first))
                 prev = None
@@ -665,6 +668,8 @@ def conformance(sc, raw):
                 if path:
                     break                       # next element of the enclosing group
                 probs.append('%s field %d repeats' % (name, tag))
+                if kind(sc, by[tag][1]) == 'data':
+                    classes.add('data-duplicate')
                 if by[tag][3] & F_AUTO:
                     classes.add('automatic-duplicate')
                 pos[0] = end
@@ -694,15 +699,20 @@ def conformance(sc, raw):
                     if not mm:
                         break
                     nt = int(mm.group(1))
+                    before = pos[0]
                     if nt != first:
                         if nt in {t[0] for t in g}:
                             probs.append('group %d: element does not begin with field %d' % (tag, first))
                             n += 1
                             section(g, 'group', path + ((tag, n),), sec=sec)
+                            if pos[0] == before:
+                                break
                             continue
                         break
                     n += 1
                     section(g, 'group', path + ((tag, n),), sec=sec)
+                    if pos[0] == before:
+                        break
                 if n != int(val):
                     classes.add('count-mismatch')
                 prev = None
